@@ -40,10 +40,10 @@ var (
 	workDir string
 )
 
-// A `wa test` run costs ~0.4 s; the horizons only classify hangs.
+// A `wa test` run costs ~0.4 s; the horizons (2000x) only classify hangs.
 const (
-	hangHorizon      = 300 * time.Second
-	hangHorizonAlone = 900 * time.Second
+	hangHorizon      = 900 * time.Second
+	hangHorizonAlone = 1800 * time.Second
 )
 
 type capBuf struct {
@@ -547,6 +547,13 @@ func main() {
 		}
 		if len(sel) == 0 {
 			return "C30|nothing-selected|" + o.Symptom
+		}
+		if want {
+			for i, l := range c.Fns {
+				if !c.selected(i) && !l.Meets {
+					return "C30|unselected-failing-function|" + o.Symptom
+				}
+			}
 		}
 		return "C30|combination:" + strings.Join(sel, "+") + "|" + o.Symptom
 	}
